@@ -8,6 +8,8 @@ from .. import core
 from .. import truth as TR
 from .. import world as W
 
+WEIRD = ['[line\u2028sep]', '[vt\x0bx]', '[ff\x0cx]', '[nel\x85x]', '[fs\x1cx]', '[a\nb]',
+         '[tab\there]', '[ünï 中]', '[' + 'y' * 400 + ']', '[ps\u2029x]', '[1 2 3 4]', '[cr\rx]']
 LAYER_EXC = ['ValueError', 'KeyError', 'CustomError', 'AssertionError', 'TypeError', 'OSError',
              'SkipTest']
 
@@ -62,9 +64,20 @@ def gen_ws(seed, pid, bias):
     rng = random.Random(seed)
     p = W.profile(**bias.get('profile', {}))
     world = W.gen_world(rng, p)
+    if rng.random() < bias.get('p_weird_ids', 0.0):
+        # unusual spellings of test ids (see C07), on tests that fail so the names are listed
+        cs = [c for m_ in world['modules'] for c in m_['classes']]
+        for _ in range(rng.randint(1, 2)):
+            t = rng.choice(rng.choice(cs)['tests'])
+            if not t.get('deco'):
+                t['idx'] = rng.choice(WEIRD)
+                t['must_fail'] = rng.choice(['AssertionError', 'ValueError'])
     m = W.Model(world)
     disc = m.discover()
     plan = []
+    for d in disc:
+        if d['t'].get('must_fail'):
+            plan.append(C.fault_entry(d, 'body', {'a': 'raise', 'exc': d['t']['must_fail']}))
     nt = rng.choice(bias.get('n_test_faults', [0, 1, 1, 2, 3]))
     plan += C.gen_test_faults(rng, disc, nt, excs=bias.get('test_excs', C.TEST_EXC_ALL),
                               p_occ=bias.get('p_occ', 0.25))
@@ -561,7 +574,11 @@ def oracle_counts(m, spec, res, T):
         if set(got_e) != set(want_e):
             viols.append(C.viol('C12/error-names', 'runner.errors %r, happened %r'
                                 % (got_e, want_e)))
-        if opt.get('v'):
+        raw = T._event_names(('failure', 'usuccess', 'error'))
+        multiline = any('\n' in n or '\r' in n for n in raw)
+        # (a name with a line break in it is printed over several lines by an in-process run:
+        # the printed list cannot be parsed back; the recorded lists above still cover it)
+        if opt.get('v') and not multiline:
             lf = C.parse_name_block(res.text, 'Tests with failures:')
             le = C.parse_name_block(res.text, 'Tests with errors:')
             if set(lf) != set(want_f):
